@@ -111,67 +111,25 @@ theorem replacements_bounded (dist : Nat → Nat) (hd : ∀ n, dist n < nBuckets
 
 /-! ### distinctness of the entries -/
 
-/-- the property's "distinct nodes" at full strength -/
-def nodup_full : Prop :=
-  ∀ (dist : Nat → Nat) (self : Nat) (ops : List Op) (i : Nat), (∀ n, dist n < nBuckets) →
-    ((run dist (empty self) ops).buckets i).entries.Nodup
-
-/-- F20 witness: one bucket; 16 nodes stuffed, node 17 parked, entry 1 deleted, 17 added again
-    (free slot: inserted, still parked), deleteReplace of entry 2 promotes the parked copy -/
-def f20ops : List Op :=
-  [.stuff [1, 2, 3, 4, 5, 6, 7, 8, 9, 10, 11, 12, 13, 14, 15, 16], .add 17, .delete 1, .add 17, .deleteReplace 2]
-
-theorem f20_state : ((run (fun _ => 0) (empty 0) f20ops).buckets 0).entries
-    = [17, 17, 3, 4, 5, 6, 7, 8, 9, 10, 11, 12, 13, 14, 15, 16] := by decide
-
-theorem nodup_full_refuted : ¬ nodup_full := by
-  intro h
-  have := h (fun _ => 0) 0 f20ops 0 (by intro _; decide)
-  rw [f20_state] at this
-  simp at this
-
-/-- an operation is safe in state `t` when it does not move a parked node into `entries`:
-    for `add n` / each node of `stuff ns`: if `n` is in the replacement list of its bucket then
-    it is already an entry or the bucket is full (so nothing is inserted) -/
-def Safe (dist : Nat → Nat) (t : Table) : Op → Prop
-  | .add n => ParkedFree (t.buckets (dist n)) n
-  | .stuff ns => ∀ n ∈ ns, ParkedFree (t.buckets (dist n)) n
-  | _ => True
-
-def SafeRun (dist : Nat → Nat) : Table → List Op → Prop
-  | _, [] => True
-  | t, op :: ops => Safe dist t op ∧ SafeRun dist (step dist t op) ops
-
-theorem step_distinct (dist : Nat → Nat) (t : Table) (op : Op) (h : ∀ j, Distinct (t.buckets j)) (hs : Safe dist t op) :
+theorem step_distinct (dist : Nat → Nat) (t : Table) (op : Op) (h : ∀ j, Distinct (t.buckets j)) :
     ∀ j, Distinct ((step dist t op).buckets j) := by
   cases op with
   | add n =>
     simp only [step, add]
     split
     · exact h
-    · exact forall_put h _ _ _ (addB_distinct (h _) hs)
+    · exact forall_put h _ _ _ (addB_distinct (h _))
   | stuff ns =>
     simp only [step, stuff]
-    simp only [Safe] at hs
     induction ns generalizing t with
     | nil => exact h
     | cons a rest ih =>
       rw [List.foldl_cons]
-      have ha := hs a (by simp)
       apply ih
-      · unfold stuff1
-        split
-        · exact h
-        · exact forall_put h _ _ _ (stuffB_distinct (h _) ha)
-      · intro m hm
-        have hm' := hs m (by simp [hm])
-        unfold stuff1
-        split
-        · exact hm'
-        · show ParkedFree (if dist m = dist a then _ else _) m
-          split
-          · rename_i e; rw [e] at hm'; exact stuffB_parkedFree hm'
-          · exact hm'
+      unfold stuff1
+      split
+      · exact h
+      · exact forall_put h _ _ _ (stuffB_distinct (h _))
   | delete n => exact forall_put h _ _ _ (deleteB_distinct n (h _))
   | deleteReplace n => exact forall_put h _ _ _ (deleteReplaceB_distinct n (h _))
   | bump n => exact forall_put h _ _ _ (bump_distinct n (h _))
@@ -179,71 +137,28 @@ theorem step_distinct (dist : Nat → Nat) (t : Table) (op : Op) (h : ∀ j, Dis
 theorem empty_distinct (self : Nat) : ∀ j, Distinct ((empty self).buckets j) := by
   intro j; exact ⟨by simp [empty], by simp [empty], by simp [empty]⟩
 
-/-- entries stay pairwise distinct along every operation sequence that never inserts a
-    parked node (the class F20 lives in is exactly the complement) -/
-theorem nodup_partial (dist : Nat → Nat) (self : Nat) (ops : List Op) (hs : SafeRun dist (empty self) ops) (i : Nat) :
-    ((run dist (empty self) ops).buckets i).entries.Nodup := by
+/-- after ANY operation sequence every bucket's entries and replacements are duplicate-free
+    and disjoint (a node is an entry or parked, never both) -/
+theorem table_distinct (dist : Nat → Nat) (self : Nat) (ops : List Op) (i : Nat) :
+    Distinct ((run dist (empty self) ops).buckets i) := by
   unfold run
-  suffices ∀ t, (∀ j, Distinct (t.buckets j)) → SafeRun dist t ops → ∀ j, Distinct ((ops.foldl (step dist) t).buckets j) from
-    (this _ (empty_distinct self) hs i).e
-  clear hs
+  suffices ∀ t, (∀ j, Distinct (t.buckets j)) → ∀ j, Distinct ((ops.foldl (step dist) t).buckets j) from
+    this _ (empty_distinct self) i
   induction ops with
-  | nil => intro t h _; exact h
-  | cons op rest ih =>
-    intro t h hsr
-    exact ih (step dist t op) (step_distinct dist t op h hsr.1) hsr.2
+  | nil => intro t h; exact h
+  | cons op rest ih => intro t h; exact ih (step dist t op) (step_distinct dist t op h)
 
-def isDelete : Op → Bool
-  | .delete _ => true
-  | _ => false
+/-- the property's "distinct nodes" at full strength: the entries of every bucket are pairwise
+    distinct after ANY operation sequence (since fix 2cde86cd `add`/`stuff` take the node out
+    of the replacement list before inserting it) -/
+theorem nodup (dist : Nat → Nat) (self : Nat) (ops : List Op) (i : Nat) :
+    ((run dist (empty self) ops).buckets i).entries.Nodup :=
+  (table_distinct dist self ops i).e
 
-/-- without `delete`, nodes are parked only while their bucket is full — so no operation can
-    insert a parked node -/
-theorem step_full (dist : Nat → Nat) (t : Table) (op : Op) (hnd : isDelete op = false)
-    (hi : Inv dist t) (h : ∀ j, Distinct (t.buckets j)) (hf : ∀ j, FullIfParked (t.buckets j)) :
-    (∀ j, FullIfParked ((step dist t op).buckets j)) ∧ Safe dist t op := by
-  cases op with
-  | add n =>
-    refine ⟨?_, parkedFree_of_full (hf _) n⟩
-    simp only [step, add]
-    split
-    · exact hf
-    · exact forall_put hf _ _ _ (addB_full (hi.bucket _).len (hf _))
-  | stuff ns =>
-    refine ⟨?_, fun n _ => parkedFree_of_full (hf _) n⟩
-    simp only [step, stuff]
-    clear h hi hnd
-    induction ns generalizing t with
-    | nil => exact hf
-    | cons a rest ih =>
-      rw [List.foldl_cons]
-      apply ih
-      unfold stuff1
-      split
-      · exact hf
-      · exact forall_put hf _ _ _ (stuffB_full (hf _))
-  | delete n => simp [isDelete] at hnd
-  | deleteReplace n =>
-    exact ⟨forall_put hf _ _ _ (deleteReplaceB_full n (hi.bucket _).len (h _) (hf _)), trivial⟩
-  | bump n => exact ⟨forall_put hf _ _ _ (bump_full n (hf _)), trivial⟩
-
-/-- entries are pairwise distinct after every sequence of add / stuff / deleteReplace / bump
-    (no `delete`) -/
-theorem nodup_no_delete (dist : Nat → Nat) (hd : ∀ n, dist n < nBuckets) (self : Nat) (ops : List Op)
-    (hnd : ∀ op ∈ ops, isDelete op = false) (i : Nat) :
-    ((run dist (empty self) ops).buckets i).entries.Nodup := by
-  unfold run
-  suffices ∀ t, Inv dist t → (∀ j, Distinct (t.buckets j)) → (∀ j, FullIfParked (t.buckets j)) → (∀ op ∈ ops, isDelete op = false) →
-      ∀ j, Distinct ((ops.foldl (step dist) t).buckets j) from
-    (this _ (empty_inv dist self) (empty_distinct self) (by intro j hr; simp [empty] at hr) hnd i).e
-  clear hnd
-  induction ops with
-  | nil => intro t _ h _ _; exact h
-  | cons op rest ih =>
-    intro t hi h hf hnd'
-    have ⟨f', s⟩ := step_full dist t op (hnd' op (by simp)) hi h hf
-    exact ih (step dist t op) (step_inv dist hd t op hi) (step_distinct dist t op h s) f'
-      (fun o ho => hnd' o (by simp [ho]))
+/-- the old F20 sequence: 16 nodes stuffed, node 17 parked, entry 1 deleted, 17 added again,
+    deleteReplace of entry 2 -/
+def f20ops : List Op :=
+  [.stuff [1, 2, 3, 4, 5, 6, 7, 8, 9, 10, 11, 12, 13, 14, 15, 16], .add 17, .delete 1, .add 17, .deleteReplace 2]
 
 /-- `add` on a full bucket reports the least recently active entry as contested and parks the node -/
 theorem add_contested (dist : Nat → Nat) (t : Table) (n c : Nat) (h : (add dist t n).2 = some c) :
@@ -310,7 +225,7 @@ theorem stuff1_appends (dist : Nat → Nat) (t : Table) (n : Nat) (hs : n ≠ t.
   rw [if_neg h1, if_pos h2]
 
 /-- after `deleteReplace n` the node is gone from its bucket — entries and replacements —
-    whatever the table looked like before (even with the duplicates of F20) -/
+    whatever the table looked like before -/
 theorem deleteReplace_removes (dist : Nat → Nat) (t : Table) (n : Nat) :
     n ∉ ((deleteReplace dist t n).buckets (dist n)).entries ∧
     n ∉ ((deleteReplace dist t n).buckets (dist n)).replacements := by
@@ -329,10 +244,10 @@ theorem deleteReplace_removes (dist : Nat → Nat) (t : Table) (n : Nat) :
     · exact ⟨fun hm => (mem_filter_ne.mp hm).2 rfl, fun hm => (mem_filter_ne.mp hm).2 rfl⟩
   · exact ⟨fun hm => (mem_filter_ne.mp hm).2 rfl, fun hm => (mem_filter_ne.mp hm).2 rfl⟩
 
-/-- `delete n` removes the node from the entries when they are distinct; with the duplicates of
-    F20 one copy survives (`delete` stops at the first match) -/
-theorem delete_removes (dist : Nat → Nat) (t : Table) (n : Nat) (hd : (t.buckets (dist n)).entries.Nodup) :
-    n ∉ ((delete dist t n).buckets (dist n)).entries := by
+/-- `delete n` removes the node from the entries of every reachable table -/
+theorem delete_removes (dist : Nat → Nat) (self : Nat) (ops : List Op) (n : Nat) :
+    n ∉ ((delete dist (run dist (empty self) ops) n).buckets (dist n)).entries := by
+  have hd := nodup dist self ops (dist n)
   unfold delete
   simp only [Table.put, if_true]
   unfold deleteB
@@ -340,14 +255,12 @@ theorem delete_removes (dist : Nat → Nat) (t : Table) (n : Nat) (hd : (t.bucke
   · simp only; rw [hd.mem_erase_iff]; simp
   · rename_i h; simpa [delRepl] using h
 
-theorem delete_leaves_duplicate :
-    17 ∈ ((delete (fun _ => 0) (run (fun _ => 0) (empty 0) f20ops) 17).buckets 0).entries := by decide
-
 /-! ### the hypotheses are satisfiable on non-trivial values (tests, not proofs of the property) -/
 
-example : SafeRun (fun n => n % 2) (empty 0) [.add 1, .add 3, .stuff [5, 7, 1], .delete 3, .deleteReplace 1, .bump 5] := by
-  simp only [SafeRun, Safe, ParkedFree]; decide
+/-- the F20 witness (repaired by 2cde86cd): node 17 is now once in the bucket and no longer parked -/
+example : (run (fun _ => 0) (empty 0) f20ops).buckets 0
+    = ⟨[17, 3, 4, 5, 6, 7, 8, 9, 10, 11, 12, 13, 14, 15, 16], []⟩ := by decide
 example : ((run (fun n => n % 2) (empty 0) [.add 1, .add 3, .stuff [5, 7, 1], .bump 5]).buckets 1).entries = [5, 3, 1, 7] := by decide
-example : (run (fun _ => 0) (empty 0) f20ops).count = 16 := by decide
+example : (run (fun _ => 0) (empty 0) f20ops).count = 15 := by decide
 
 end BytomModel.Props.C34
